@@ -953,6 +953,10 @@ func (r *FnRun) execInstr(b *ssa.BasicBlock, idx int, ins ssa.Instruction, st *S
 		st.regs[x] = r.operand(st, x.X)
 	case *ssa.MakeSlice:
 		st.regs[x] = r.makeSlice(st, x)
+	case *ssa.MakeMap:
+		st.regs[x] = r.makeMap(st, x)
+	case *ssa.MapUpdate:
+		r.mapUpdate(st, x)
 	case *ssa.Call:
 		v, ended := r.call(st, b, idx, x)
 		if ended {
@@ -1721,7 +1725,7 @@ func (r *FnRun) index(st *State, x *ssa.Index) Val {
 
 func (r *FnRun) lookup(st *State, x *ssa.Lookup) Val {
 	if _, ok := x.X.Type().Underlying().(*types.Map); ok {
-		panic(unsupported("map lookup"))
+		return r.mapLookup(st, x)
 	}
 	sv := r.operand(st, x.X).(*StructVal)
 	idx := r.operand(st, x.Index).(Term)
